@@ -124,3 +124,36 @@ def position_lookup(prog, f):
                     if a[0] == "cmp" and a[1] in ("Is", "Eq") and a[4] is True and {a[2], a[3]} == {ev, params[0] if params else None}:
                         return {"source": ast.unparse(it.args[0]), "start": sv, "test": a[1]}
     return None
+
+
+def first_matches(prog, f):
+    """Searches for the first element of a source that satisfies a test, in either spelling:
+         next((E for v in SRC if C), D)                  (anywhere in an expression)
+         for v in SRC: if C: return E                    (loop with an early return)
+    Returns [{"terminal", "elt", "conds" (list of sources, loop variable written `_`)}]."""
+    import copy
+
+    fx = expand(prog, f, local_only=True)
+    out = []
+
+    def ren(e, tv):
+        class R(ast.NodeTransformer):
+            def visit_Name(self, n):
+                return ast.Name(id="_", ctx=n.ctx) if n.id == tv else n
+        return ast.unparse(R().visit(copy.deepcopy(e)))
+
+    for n in ast.walk(fx):
+        if isinstance(n, ast.Call) and dotted(n.func) == "next" and n.args and isinstance(n.args[0], ast.GeneratorExp) \
+                and len(n.args[0].generators) == 1 and isinstance(n.args[0].generators[0].target, ast.Name):
+            g = n.args[0].generators[0]
+            out.append({"terminal": source_of(fx, g.iter, prog, f)["terminal"], "elt": ren(n.args[0].elt, g.target.id),
+                        "conds": [ren(c, g.target.id) for c in g.ifs]})
+        if isinstance(n, ast.For) and isinstance(n.target, ast.Name):
+            for r in P_.outcomes(n.body, P_.aliases(fx)):
+                if r.end == "return" and r.value is not None:
+                    conds = [ren(e[1], n.target.id) for e in r.path.events if e[0] == "cond" and e[2] is True]
+                    neg = [e for e in r.path.events if e[0] == "cond" and e[2] is False]
+                    if conds and not neg:
+                        out.append({"terminal": source_of(fx, n.iter, prog, f)["terminal"], "elt": ren(r.path.end_node.value, n.target.id),
+                                    "conds": conds})
+    return out
